@@ -118,6 +118,12 @@ func runFixed(c *core.Ctx, accuracy bool) {
 						map[string]any{"fn": name, "source_amplitude": amp(st, in[idx]), "position": idx, "buffer_len": len(in), "channels": sc.ch})
 				}
 				c.Obs("chunks_also_converted_in_reverse_order", 1)
+				if idx, got := sc.windowsCheck(in, out); idx >= 0 {
+					viol++
+					c.Violate(name+"|window-dependence", caseID, fmt.Sprintf("position %d converts to amplitude %d in one call and to amplitude %d when the same samples are converted in three pieces through pairs of Slice windows, last piece first", idx, amp(dt, out[idx]), amp(dt, got)),
+						map[string]any{"fn": name, "position": idx, "buffer_len": len(in), "channels": sc.ch})
+				}
+				c.Obs("chunks_also_converted_piecewise_through_windows_last_piece_first", 1)
 			}
 			var rt []uint64
 			if back != nil {
